@@ -257,7 +257,9 @@ pub fn run(ctx: &Ctx) -> Report {
     stage("c17.glide.mixed", r, &mut rep, t0);
     let t0 = std::time::Instant::now();
     let n_rb = ctx.budget(4, 600, 20_000) as usize;
-    let rates: Vec<u32> = if small { vec![100, 1000] } else { ribbon::RATES.to_vec() };
+    // the standard rates, and rates just below a step of the capacity helper (a non-integer rate next to such a
+    // step must still be accepted with the buffer the helper gives for its integer part)
+    let rates: Vec<u32> = if small { vec![100, 1000, 999] } else { ribbon::RATES.iter().copied().chain([133, 199, 333, 666, 999, 1499, 1999, 2999, 9999, 10_999, 19_999, 47_999]).collect() };
     let r = par_shards(ctx, shards, |sh| {
         let mut rep = Report::new();
         let mut r = Rng::derive(ctx.seed, "c17.ribbon", sh as u64);
@@ -277,7 +279,7 @@ pub fn run(ctx: &Ctx) -> Report {
         // an unbroken contact of 2^32 + 5 samples on the smallest buffer (a narrow sample counter would overflow)
         let t0 = std::time::Instant::now();
         let mut r = Report::new();
-        let cfg = ribbon::Cfg { rate: 100, softpot: 20e3, dropper: 820.0, pullup: 1e6, frac: 0.0 };
+        let cfg = ribbon::Cfg { rate: 100, softpot: 20e3, dropper: 820.0, pullup: 1e6, frac: 0.0, cap: 0 };
         let bb = cfg.boundary() as f32;
         let h = ribbon::History { cfg, strict: false, ops: vec![ribbon::Op::Poll(0.6 * bb, (1u64 << 32) + 5), ribbon::Op::Poll(1.0, 2), ribbon::Op::Poll(0.2 * bb, 20)] };
         ribbon::run_and_record(&h, want, &mut r, false);
